@@ -4,7 +4,9 @@
  *   run <algo> <cap> <k> <d> <steps> <spnum> <spsh> <f> <accel> <nbThreads> <shrink> <level> <dictID> <selectivity>
  *       <ckind> <cseed> <csize> <nb> <kind> <seed> <size>...
  *
- * algo: default | cover | fastcover | optcover | optfast | legacy | finalize | addentropy
+ * algo: default | cover | fastcover | optcover | optfast | legacy | finalize | addentropy, optionally followed by
+ *       "@<n>" = ZDICT_params_t.notificationLevel n (the library then writes progress text to stderr)
+ * capacities above C18_LAZY_CAP are served by an untouched MAP_NORESERVE mapping (no fill, no guard band, no second run)
  * result: ERR:<name> | NODICT | DICT size= id= ids= cdict= ddict= rt= det= guard= hash= k= d=  | CRASH ...      */
 #define ZDICT_STATIC_LINKING_ONLY
 #define ZDICT_DISABLE_DEPRECATE_WARNINGS
@@ -17,13 +19,15 @@
 #include <sys/wait.h>
 #include <unistd.h>
 #include <fcntl.h>
+#include <sys/mman.h>
 
 #define MAXTOK 70000
 #define GUARD 64
+#define C18_LAZY_CAP ((size_t)64 << 20)
 
 typedef struct {
     const char* algo; size_t cap; unsigned k, d, steps; double sp; unsigned f, accel, nbThreads, shrink; int level;
-    unsigned dictID, selectivity; int ckind; uint64_t cseed; size_t csize;
+    unsigned dictID, selectivity; int ckind; uint64_t cseed; size_t csize; unsigned notif;
 } ocase;
 
 static size_t train(const ocase* c, unsigned char* dict, const c18_samples* s, unsigned* outK, unsigned* outD) {
@@ -33,7 +37,7 @@ static size_t train(const ocase* c, unsigned char* dict, const c18_samples* s, u
         ZDICT_cover_params_t p; size_t r; memset(&p, 0, sizeof p);
         p.k = c->k; p.d = c->d; p.steps = c->steps; p.nbThreads = c->nbThreads; p.splitPoint = c->sp;
         p.shrinkDict = c->shrink; p.shrinkDictMaxRegression = 1;
-        p.zParams.compressionLevel = c->level; p.zParams.dictID = c->dictID;
+        p.zParams.compressionLevel = c->level; p.zParams.dictID = c->dictID; p.zParams.notificationLevel = c->notif;
         if (!strcmp(c->algo, "cover")) return ZDICT_trainFromBuffer_cover(dict, c->cap, s->buf, s->sizes, s->nb, p);
         r = ZDICT_optimizeTrainFromBuffer_cover(dict, c->cap, s->buf, s->sizes, s->nb, &p);
         *outK = p.k; *outD = p.d; return r;
@@ -42,7 +46,7 @@ static size_t train(const ocase* c, unsigned char* dict, const c18_samples* s, u
         ZDICT_fastCover_params_t p; size_t r; memset(&p, 0, sizeof p);
         p.k = c->k; p.d = c->d; p.steps = c->steps; p.nbThreads = c->nbThreads; p.splitPoint = c->sp; p.f = c->f;
         p.accel = c->accel; p.shrinkDict = c->shrink; p.shrinkDictMaxRegression = 1;
-        p.zParams.compressionLevel = c->level; p.zParams.dictID = c->dictID;
+        p.zParams.compressionLevel = c->level; p.zParams.dictID = c->dictID; p.zParams.notificationLevel = c->notif;
         if (!strcmp(c->algo, "fastcover")) return ZDICT_trainFromBuffer_fastCover(dict, c->cap, s->buf, s->sizes, s->nb, p);
         r = ZDICT_optimizeTrainFromBuffer_fastCover(dict, c->cap, s->buf, s->sizes, s->nb, &p);
         *outK = p.k; *outD = p.d; return r;
@@ -50,11 +54,12 @@ static size_t train(const ocase* c, unsigned char* dict, const c18_samples* s, u
     if (!strcmp(c->algo, "legacy")) {
         ZDICT_legacy_params_t p; memset(&p, 0, sizeof p);
         p.selectivityLevel = c->selectivity; p.zParams.compressionLevel = c->level; p.zParams.dictID = c->dictID;
+        p.zParams.notificationLevel = c->notif;
         return ZDICT_trainFromBuffer_legacy(dict, c->cap, s->buf, s->sizes, s->nb, p);
     }
     if (!strcmp(c->algo, "finalize")) {
         ZDICT_params_t p; size_t r; unsigned char* content = (unsigned char*)malloc(c->csize ? c->csize : 1);
-        memset(&p, 0, sizeof p); p.compressionLevel = c->level; p.dictID = c->dictID;
+        memset(&p, 0, sizeof p); p.compressionLevel = c->level; p.dictID = c->dictID; p.notificationLevel = c->notif;
         c18_fill(content, c->csize, c->ckind, c->cseed, 0);
         r = ZDICT_finalizeDictionary(dict, c->cap, content, c->csize, s->buf, s->sizes, s->nb, p);
         free(content); return r;
@@ -75,7 +80,10 @@ static void run_case(char** t, int n) {
 #else
         0;
 #endif
+    int lazy;
     if (n < 21) { printf("BADCASE\n"); return; }
+    c.notif = 0;
+    {   char* at = strchr(t[1], '@'); if (at) { *at = 0; c.notif = (unsigned)strtoul(at + 1, 0, 10); } }
     c.algo = t[1]; c.cap = (size_t)strtoull(t[2], 0, 10); c.k = (unsigned)strtoul(t[3], 0, 10); c.d = (unsigned)strtoul(t[4], 0, 10);
     c.steps = (unsigned)strtoul(t[5], 0, 10);
     c.sp = (!strcmp(t[6], "nan")) ? NAN : ldexp(strtod(t[6], NULL), -atoi(t[7]));
@@ -85,9 +93,15 @@ static void run_case(char** t, int n) {
     c.csize = (size_t)strtoull(t[17], 0, 10);
     if (c18_parse_samples(t + 18, n - 18, &s) < 0) { printf("BADCASE\n"); return; }
     /* exact allocation under a sanitizer (it sees the true end); guard band otherwise */
-    alloc = c.cap + (sanitized ? 0 : GUARD);
-    dict = (unsigned char*)malloc(alloc ? alloc : 1);
-    memset(dict, 0xEE, alloc);
+    lazy = c.cap > C18_LAZY_CAP;
+    alloc = c.cap + ((sanitized || lazy) ? 0 : GUARD);
+    if (lazy) {
+        dict = (unsigned char*)mmap(NULL, alloc, PROT_READ | PROT_WRITE, MAP_PRIVATE | MAP_ANONYMOUS | MAP_NORESERVE, -1, 0);
+        if (dict == (unsigned char*)MAP_FAILED) { printf("ERR:harness-could-not-map-capacity guard=1\n"); c18_free_samples(&s); return; }
+    } else {
+        dict = (unsigned char*)malloc(alloc ? alloc : 1);
+        memset(dict, 0xEE, alloc);
+    }
     r = train(&c, dict, &s, &rk, &rd);
     for (i = c.cap; i < alloc; i++) if (dict[i] != 0xEE) guardok = 0;
     if (ZDICT_isError(r)) { printf("ERR:%s guard=%d\n", ZDICT_getErrorName(r), guardok); goto done; }
@@ -114,11 +128,20 @@ static void run_case(char** t, int n) {
                     size_t const ds = ZSTD_decompress_usingDDict(dc, ob, sz, cb, cs, dd);
                     if (ZSTD_isError(ds) || ds != sz || (sz && memcmp(ob, s.buf + pos, sz))) rt = (int)u;
                 }
+                if (rt < 0) {   /* second round trip: raw dictionary (both sides reload it), level varies with the sample */
+                    static const int lv[10] = { -7, 1, 2, 4, 6, 9, 13, 16, 19, 22 };
+                    size_t const cs2 = ZSTD_compress_usingDict(cc, cb, bound, s.buf + pos, sz, dict, r, lv[u % 10]);
+                    if (ZSTD_isError(cs2)) rt = (int)u;
+                    else {
+                        size_t const ds2 = ZSTD_decompress_usingDict(dc, ob, sz, cb, cs2, dict, r);
+                        if (ZSTD_isError(ds2) || ds2 != sz || (sz && memcmp(ob, s.buf + pos, sz))) rt = (int)u;
+                    }
+                }
                 free(cb); free(ob); pos += sz;
             }
             ZSTD_freeCCtx(cc); ZSTD_freeDCtx(dc);
         }
-        if (c.nbThreads <= 1) {
+        if (c.nbThreads <= 1 && !lazy) {
             unsigned k2, d2; size_t r2;
             dict2 = (unsigned char*)malloc(alloc ? alloc : 1);
             memset(dict2, 0x11, alloc);      /* different fill: output must not depend on the buffer's old bytes */
@@ -135,7 +158,8 @@ static void run_case(char** t, int n) {
         ZSTD_freeCDict(cd); ZSTD_freeDDict(dd);
     }
 done:
-    free(dict); c18_free_samples(&s);
+    if (lazy) munmap(dict, alloc); else free(dict);
+    c18_free_samples(&s);
 }
 
 int main(int argc, char** argv) {
